@@ -230,8 +230,14 @@ pub fn treecheck(args: &[String]) {
                         }
                     }
                 }
-                // proofs carry the same values
+                // proofs carry the same values - also when the core has just been reopened and what it
+                // serves comes from the replay of its unflushed entries
                 let mut pc = 0u64;
+                if rng.gen_bool(0.5) {
+                    if !matches!(core.reopen(), OpenResult::Ok) {
+                        mism.push(json!({"what":"reopen before serving proofs failed"}));
+                    }
+                }
                 if n > 0 {
                     let idxs: Vec<u64> = if n <= 16 { (0..n).collect() } else {
                         let mut v = vec![0, 1, n / 2, n - 2, n - 1];
@@ -379,13 +385,27 @@ pub fn wirecheck(args: &[String]) {
     let bounds: Vec<u64> = l.t("cuint_boundaries").as_array().unwrap().iter().map(|s| s.as_str().unwrap().parse::<u128>().unwrap() as u64).collect();
     let mut bad: Vec<Value> = vec![];
     let mut stats = (0u64, 0u64);
-    let hash = |rng: &mut StdRng| -> Vec<u8> { (0..32).map(|_| rng.gen()).collect() };
+    // hashes: random ones, and the values an encoder may treat specially (all zero = a blank node,
+    // all ones, a single non-zero byte)
+    fn pick_hash(rng: &mut StdRng) -> Vec<u8> {
+        match rng.gen_range(0..8) {
+            0 => vec![0u8; 32],
+            1 => vec![0xFFu8; 32],
+            2 => {
+                let mut h = vec![0u8; 32];
+                h[rng.gen_range(0..32)] = rng.gen_range(1..=255);
+                h
+            }
+            _ => (0..32).map(|_| rng.gen()).collect(),
+        }
+    }
+    let hash = |rng: &mut StdRng| -> Vec<u8> { pick_hash(rng) };
     // node indices with 63 or more trailing one bits make Node::new itself overflow (see the
     // standalone node check below, which reports it); inside other messages they are left out
     // so that one root cause is reported once
     let nb: Vec<u64> = bounds.iter().copied().filter(|x| x.trailing_ones() < 63).collect();
     let mk_nodes = |rng: &mut StdRng, k: usize, _b: &[u64]| -> Vec<Node> {
-        (0..k).map(|_| Node::new(nb[rng.gen_range(0..nb.len())], (0..32).map(|_| rng.gen()).collect(), nb[rng.gen_range(0..nb.len())])).collect()
+        (0..k).map(|_| Node::new(nb[rng.gen_range(0..nb.len())], pick_hash(rng), nb[rng.gen_range(0..nb.len())])).collect()
     };
     // integer fields at every boundary, pairwise
     for &a in &bounds {
@@ -398,16 +418,17 @@ pub fn wirecheck(args: &[String]) {
             f.insert("start".into(), Val::U(a));
             f.insert("length".into(), Val::U(b));
             check_msg(l, "request_upgrade", &RequestUpgrade { start: a, length: b }, &f, &mut bad, &mut stats);
-            let h = hash(&mut rng);
-            let mut f = Fields::new();
-            f.insert("index".into(), Val::U(a));
-            f.insert("size".into(), Val::U(b));
-            f.insert("hash".into(), Val::B(h.clone()));
-            match catch_unwind(AssertUnwindSafe(|| Node::new(a, h.clone(), b))) {
-                Ok(nd) => check_msg(l, "node", &nd, &f, &mut bad, &mut stats),
-                Err(_) => {
-                    stats.0 += 1;
-                    bad.push(json!({"msg":"node","what":"constructing the value panics","key":"node-index-trailing-ones","index":a.to_string()}));
+            for h in [hash(&mut rng), vec![0u8; 32], vec![0xFFu8; 32]] {
+                let mut f = Fields::new();
+                f.insert("index".into(), Val::U(a));
+                f.insert("size".into(), Val::U(b));
+                f.insert("hash".into(), Val::B(h.clone()));
+                match catch_unwind(AssertUnwindSafe(|| Node::new(a, h.clone(), b))) {
+                    Ok(nd) => check_msg(l, "node", &nd, &f, &mut bad, &mut stats),
+                    Err(_) => {
+                        stats.0 += 1;
+                        bad.push(json!({"msg":"node","what":"constructing the value panics","key":"node-index-trailing-ones","index":a.to_string()}));
+                    }
                 }
             }
         }
